@@ -66,7 +66,7 @@ def nontrivial(res):
 
 
 def case_kw(rng, row):
-    kw = {'mpu': False, 'e': 1 if rng.random() < 0.2 else 0}          # branch tables (TBB/TBH) and PC loads are data accesses: they follow CPSR.E
+    kw = {'mpu': False, 'mmu': False, 'e': 1 if rng.random() < 0.2 else 0}          # branch tables (TBB/TBH) and PC loads are data accesses: they follow CPSR.E
     if rng.random() < 0.4:
         kw['code_base'] = rng.choice((0, 0xFFFFFF00, 0xFFFF0000, 0x7FFFFF80, 0x80000000))     # instruction addresses next to 0 / 2^31 / 2^32: targets and link values wrap
     if row.n == 16 or row.name.endswith(('_T1', '_T2', '_T3', '_T4')):
@@ -82,7 +82,7 @@ def post_check(acc, res, case):
     return False
 
 
-PLAN = e1prop.Plan('C04', ROWS, cfgs=('v6', 'v7', 'v5', 'v4'), classify=classify, nontrivial=nontrivial, case_kw=case_kw, tweak_word=to_pc, tweak_case=aim)
+PLAN = e1prop.Plan('C04', ROWS, cfgs=('v6', 'v7', 'v5', 'v4', 'v7-virt'), classify=classify, nontrivial=nontrivial, case_kw=case_kw, tweak_word=to_pc, tweak_case=aim)
 
 
 def run(ctx):
